@@ -23,6 +23,7 @@ EXPLANATION = (
     "iterator (T8), producer existence for policy errors (T3) and guard dominance of every check_resolution call (T5)."
 )
 NOT_DECIDED = "the 'iff' as a whole (needs reachability over data); the wording of the reported referrer"
+CONFIGS = ["default", "nofastcheck"]  # thorough tier also analyses the build without fast_check / symbols
 ASSUMPTIONS = []
 
 EI = "<graph::ModuleGraphErrorIterator as std::iter::Iterator>::next"
@@ -67,6 +68,9 @@ def run(F, R, tier):
             ca = ca or c
             vals = []
             _tail_values(F, arm["body"], vals)
+            for r_ in walk(arm["body"], into_closures=False):
+                if r_["k"] == "Ret" and "e" in r_:
+                    _tail_values(F, r_["e"], vals)
             name = (sorted(v) or ["_"])[0].split("::")[-1]
             if name == "Err":
                 ok = bool(vals) and all(ctor_of(x) == "std::option::Option::Some" for x in vals)
@@ -155,17 +159,18 @@ def run(F, R, tier):
     for c in calls:
         rk = expr_text(c["args"][1])
         fld = sorted(res_fields(F, c["args"][3]), key=str)
-        g = guards_at(F, c)
+        g0 = guards_at(F, c)
+        g = expand_local_guards(F, g0, en)
         txt = [x.text() for x in g]
         name = "%s / %s" % (rk.split("::")[-1], fld[0][1] if fld else "?")
         if fld and fld[0][1] == "maybe_type":
-            R.ob("C02-e", "type resolution checked only when the module is type-checked [%s]" % name, any(x.kind == "cond" and x.pol and expr_text(x.node) == "check_types" for x in g),
+            R.ob("C02-e", "type resolution checked only when the module is type-checked [%s]" % name, any(x.kind == "cond" and x.pol and (x.node.get("fn") or "").endswith("GraphKind::include_types") for x in g) and any(x.kind == "cond" and x.pol and (x.node.get("fn") or "").endswith("is_checkable") for x in g),
                  "check of dep.maybe_type not dominated by check_types: a type-only failure would fail code validation", where(c))
         if fld and fld[0][1] in ("maybe_type", "maybe_code"):
             ok = any(x.kind == "cond" and x.pol and x.node.get("k") == "Binary" and x.node["op"] == "||" and "follow_dynamic" in expr_text(x.node) and "is_dynamic" in expr_text(x.node) for x in g)
             R.ob("C02-e", "dependency checked only if static or follow_dynamic [%s]" % name, ok, "check not dominated by `follow_dynamic || !dep.is_dynamic`: an unfollowed dynamic edge's failure would fail validation", where(c))
             if fld[0][1] == "maybe_code":
-                R.ob("C02-e", "code resolution check is not conditional on types [%s]" % name, not any(x.kind == "cond" and expr_text(x.node) in ("check_types",) for x in g), "code check guarded by check_types", where(c))
+                R.ob("C02-e", "code resolution check is not conditional on types [%s]" % name, not any(x.kind == "cond" and ((x.node.get("fn") or "").endswith("GraphKind::include_types") or (x.node.get("fn") or "").endswith("is_checkable")) for x in g), "code check guarded by a types condition", where(c))
         if fld and fld[0][1] == "dependency":
             R.ob("C02-e", "types dependency checked only when types are included [%s]" % name, any(x.kind == "cond" and x.pol and (x.node.get("fn") or "").endswith("GraphKind::include_types") for x in g),
                  "check of maybe_types_dependency not dominated by kind.include_types()", where(c))
@@ -182,12 +187,6 @@ def run(F, R, tier):
                 ok = any(n.get("k") == "MethodCall" and n["name"] == "push" and expr_text(n["recv"]).endswith("next_errors") for n in walk(a["then"]))
                 break
         R.ob("C02-e", "a reported resolution error is queued for the caller", ok, "result of check_resolution is dropped", where(c))
-    ct = [n for n in en["_nodes"] if n.get("k") == "LetStmt" and n["pat"].get("name") == "check_types"]
-    if R.ob("C02-e", "check_types is defined", len(ct) == 1, "shape changed", en["file"]):
-        conds = []
-        split_cond(ct[0]["init"], True, conds)
-        R.ob("C02-e", "check_types = kind.include_types() && is_checkable(..)", any((x.node.get("fn") or "").endswith("GraphKind::include_types") for x in conds if x.kind == "cond") and any((x.node.get("fn") or "").endswith("is_checkable") for x in conds if x.kind == "cond"),
-             "check_types no longer requires include_types && is_checkable", where(ct[0]))
 
     # ---------------- C02-w ------------------------------------------------
     # the error listing can only report what the walk yields: a specifier that
